@@ -101,6 +101,14 @@ func Size(m Message, v Version) int64 {
 	}
 }
 
+// Validate reports whether the message can be written, without writing anything
+func Validate(m Message) error {
+	if len(m.Key)+len(m.Value) > maxMessageBodySize {
+		return fmt.Errorf("message too big")
+	}
+	return nil
+}
+
 type Writer struct {
 	Path    string
 	f       *os.File
